@@ -53,3 +53,13 @@ pub mod c18 {
 pub mod res {
     include!(concat!(env!("BROOD_VERIF_DIR"), "/harness/res.rs"));
 }
+
+#[cfg(kani)]
+pub mod serde_backend {
+    include!(concat!(env!("BROOD_VERIF_DIR"), "/harness/serde_backend.rs"));
+}
+
+#[cfg(kani)]
+pub mod serde_h {
+    include!(concat!(env!("BROOD_VERIF_DIR"), "/harness/serde_h.rs"));
+}
